@@ -89,6 +89,7 @@ class Sub:
     shards = {"quick": NPROC, "thorough": NPROC}
     n = {"quick": 1000, "thorough": 20000}     # hyp: total examples over all shards
     budget_s = {"quick": 100.0, "thorough": 2400.0}   # wall guard per shard (marks truncated)
+    fuzz_runs = 0           # > 0: thorough tier adds a coverage-guided atheris campaign of this many runs per process
 
     def strategy(self, tier):
         raise NotImplementedError
@@ -551,6 +552,45 @@ def main(prop, tier="quick", replay_path=None, only=None, do_shrink=True):
                         m["fails"][b] = f
                     m["fails"][b]["count"] = cnt
 
+        # --- coverage-guided campaign (thorough tier, sub-checks that opted in) ---------------
+        fuzz_info = {}
+        fsubs = [s for s in subs if tier == "thorough" and getattr(s, "fuzz_runs", 0) and s.kind == "hyp"]
+        if fsubs and os.environ.get("VERIF_NO_FUZZ") != "1":
+            import subprocess, concurrent.futures as cf
+            per = max(1, NPROC // len(fsubs))
+            jobs_f = [(s, i) for s in fsubs for i in range(per)]
+
+            def run_fuzz(job):
+                s, i = job
+                outdir = os.path.join("/tmp", "vp_fuzz_%s_%s_%d_%d" % (prop, s.name, vseed, i))
+                cmd = [sys.executable, "-m", "vp.fuzz", prop, s.name, "--runs", str(s.fuzz_runs), "--seed", str(derive_seed(vseed, prop, s.name, "fuzz", i) % (2 ** 31)), "--out", outdir]
+                try:
+                    pr = subprocess.run(cmd, cwd=ROOT, capture_output=True, text=True, timeout=s.budget_s["thorough"])
+                    line = [l for l in pr.stdout.splitlines() if l.startswith("FUZZ-SUMMARY ")]
+                    return s.name, (json.loads(line[-1][len("FUZZ-SUMMARY "):]) if line else {"error": (pr.stderr or pr.stdout)[-400:]})
+                except subprocess.TimeoutExpired:
+                    return s.name, {"error": "timeout"}
+                finally:
+                    import shutil
+                    shutil.rmtree(outdir, ignore_errors=True)
+            with cf.ThreadPoolExecutor(NPROC) as ex:
+                for name, out in ex.map(run_fuzz, jobs_f):
+                    fi = fuzz_info.setdefault(name, {"processes": 0, "evaluations": 0, "nontrivial": 0, "errors": 0, "corpus_files": 0})
+                    fi["processes"] += 1
+                    if "error" in out:
+                        fi["errors"] += 1
+                        fi["last_error"] = out["error"]
+                        continue
+                    fi["evaluations"] += out["evals"]; fi["nontrivial"] += out["nt_count"]; fi["corpus_files"] += out["corpus_files"]
+                    m = merged[name]
+                    m["evals"] += out["evals"]; m["nt_count"] += out["nt_count"]
+                    for b, f in out["fails"].items():
+                        cur = m["fails"].get(b)
+                        if cur is None:
+                            m["fails"][b] = {"case": f["case"], "msg": f["msg"], "size": len(json.dumps(f["case"])), "count": f["count"], "shard": "atheris"}
+                        else:
+                            cur["count"] += f["count"]
+
         # --- failures: known / shrink / replay files -----------------------------------
         jobs = []
         for s in subs:
@@ -603,6 +643,8 @@ def main(prop, tier="quick", replay_path=None, only=None, do_shrink=True):
             "excluded_known": m["excluded_known"], "budget_truncated": m["truncated"],
             "max_observed": {k: float("%.4g" % v) for k, v in m["maxnotes"].items()},
             "failure_buckets": {b: f["count"] for b, f in m["fails"].items()}, "slowest_shard_s": round(m["wall"], 1)}
+        if s.name in fuzz_info:
+            per_sub[s.name]["atheris_campaign"] = fuzz_info[s.name]
         if nd > 0.3 * max(1, nd + m["evals"]) and nd + m["evals"] >= 20:
             gen_problem.append("%s discards %d of %d" % (s.name, nd, nd + m["evals"]))
         if m["evals"] == 0:
